@@ -114,12 +114,12 @@ namespace BitSerializer
 			if constexpr (TArchive::IsLoading())
 			{
 				cont.clear();
-				auto hint = cont.begin();
 				while (!arrayScope.IsEnd())
 				{
 					typename TMultiMap::value_type pair;
 					if (Serialize(arrayScope, pair)) {
-						hint = cont.emplace_hint(hint, std::move(pair));
+						// Hint to the end keeps the order of elements with equal keys (they are saved in the sorted order)
+						cont.emplace_hint(cont.end(), std::move(pair));
 					}
 				}
 			}
